@@ -15,7 +15,10 @@ package interp
 // is complete for the extracted threads. Each monitor is one obligation
 // discharged by the solver: unsat = no schedule violates it.
 
-import "fmt"
+import (
+	"fmt"
+	"os"
+)
 
 type schedEvent struct {
 	kind  string
@@ -183,7 +186,17 @@ func bitsFor(n int) int {
 	return w
 }
 
-func (i *interpreter) scheduleCheck(cpus int) {
+func (i *interpreter) scheduleCheck(cpus int, steps bool) {
+	if steps || os.Getenv("VERIF_SCHED") == "steps" {
+		i.scheduleCheckSteps(cpus)
+		return
+	}
+	i.scheduleCheckPO(cpus)
+}
+
+// scheduleCheckSteps: the step-indexed encoding (sched[k] = goroutine of step k). Kept as the
+// reference encoding the partial-order encoding below is diffed against (VERIF_SCHED=steps).
+func (i *interpreter) scheduleCheckSteps(cpus int) {
 	t := i.trace
 	if t == nil {
 		panic("verifScheduleCheck without verifTraceStart")
@@ -457,6 +470,257 @@ func (i *interpreter) scheduleCheck(cpus int) {
 	oblige(m4, "deadlock")
 	// vacuity guard: a complete run exists
 	full := tt.And(tt.Eq(nSteps, nc(N)), allDone(N))
+	v, _ := i.solver.CheckOneShot(append(append([]Lit{}, i.pc...), Lit{full, false}), 600000)
+	if v == Sat {
+		i.reach["complete-schedule-exists"]++
+		i.pathReach["complete-schedule-exists"]++
+	}
+}
+
+
+// scheduleCheckPO: partial-order encoding. Every atomic block b gets a boolean x(b)
+// ("executed in this run prefix") and a time stamp tau(b); program order, spawn order and
+// pairwise distinct time stamps make the executed blocks a linear run; a counter's value just
+// before b is the sum of the deltas of executed blocks with a smaller time stamp. No per-step
+// state, O(B^2) comparisons.
+func (i *interpreter) scheduleCheckPO(cpus int) {
+	t := i.trace
+	if t == nil {
+		panic("verifScheduleCheck without verifTraceStart")
+	}
+	i.trace = nil
+	tt := i.tt
+	rawN := 0
+	for _, th := range t.threads {
+		rawN += len(th.events)
+	}
+	t.reduce()
+	T := len(t.threads)
+	type blk struct{ t, j int }
+	var blocks []blk
+	for ti, th := range t.threads {
+		for j := range th.events {
+			blocks = append(blocks, blk{ti, j})
+		}
+	}
+	B := len(blocks)
+	if B > 400 {
+		panic(unsupported{fmt.Sprintf("schedule model too large: %d blocks", B)})
+	}
+	i.reach[fmt.Sprintf("schedule-model threads=%d events=%d steps=%d", T, rawN, B)]++
+	w := bitsFor(B + 1)
+	x := map[blk]*Term{}
+	tau := map[blk]*Term{}
+	for _, b := range blocks {
+		xn := i.freshName(fmt.Sprintf("x_%d_%d", b.t, b.j))
+		tn := i.freshName(fmt.Sprintf("at_%d_%d", b.t, b.j))
+		i.inputs = append(i.inputs, inputRec{xn, "bool", 0}, inputRec{tn, "byte", 0})
+		x[b] = tt.Var(xn, 0)
+		tau[b] = tt.Var(tn, w)
+	}
+	type procKey struct{}
+	type delta struct {
+		b blk
+		d int
+	}
+	counters := map[interface{}][]delta{}
+	add := func(key interface{}, b blk, d int) {
+		for k := range counters[key] {
+			if counters[key][k].b == b {
+				counters[key][k].d += d
+				return
+			}
+		}
+		counters[key] = append(counters[key], delta{b, d})
+	}
+	for _, b := range blocks {
+		for _, e := range t.threads[b.t].events[b.j].members() {
+			switch e.kind {
+			case "sem.Acquire":
+				add(e.obj, b, int(e.n))
+			case "sem.Release":
+				add(e.obj, b, -int(e.n))
+			case "(*sync.WaitGroup).Add":
+				add(e.obj, b, int(e.n))
+			case "(*sync.WaitGroup).Done":
+				add(e.obj, b, -1)
+			case "spawn":
+				if e.obj != nil {
+					add(e.obj, b, 1)
+				}
+			case "eg.Done":
+				add(e.obj, b, -1)
+			case "(*sync.Mutex).Lock", "(*sync.RWMutex).Lock":
+				add(e.obj, b, 1)
+			case "(*sync.Mutex).Unlock", "(*sync.RWMutex).Unlock":
+				add(e.obj, b, -1)
+			case "user:proc-start":
+				add(procKey{}, b, 1)
+			case "user:proc-end":
+				add(procKey{}, b, -1)
+			}
+		}
+	}
+	ctrW := map[interface{}]int{}
+	for key, ds := range counters {
+		pos := 0
+		for _, d := range ds {
+			if d.d > 0 {
+				pos += d.d
+			}
+		}
+		ctrW[key] = bitsFor(pos + 2)
+	}
+	cst := func(key interface{}, n int) *Term {
+		wd := ctrW[key]
+		return tt.Const(wd, uint64(int64(n))&((1<<uint(wd))-1))
+	}
+	// counter value seen by block b: executed blocks strictly before b (incl = false) or up to and including b
+	count := func(key interface{}, when func(o blk) *Term) *Term {
+		sum := cst(key, 0)
+		for _, d := range counters[key] {
+			if d.d == 0 {
+				continue
+			}
+			sum = tt.Bin(OpAdd, sum, tt.Ite(when(d.b), cst(key, d.d), cst(key, 0)))
+		}
+		return sum
+	}
+	before := func(b blk) func(o blk) *Term {
+		return func(o blk) *Term {
+			if o == b {
+				return tt.Bool(false)
+			}
+			return tt.And(x[o], tt.Bin(OpUlt, tau[o], tau[b]))
+		}
+	}
+	upto := func(b blk) func(o blk) *Term {
+		return func(o blk) *Term {
+			if o == b {
+				return x[b]
+			}
+			return tt.And(x[o], tt.Bin(OpUlt, tau[o], tau[b]))
+		}
+	}
+	final := func(o blk) *Term { return x[o] }
+	enabledAt := func(b blk, when func(o blk) *Term) *Term {
+		e := t.threads[b.t].events[b.j]
+		switch e.kind {
+		case "sem.Acquire":
+			cp, ok := t.semCap[e.obj]
+			if !ok || cp >= int64(1)<<uint(ctrW[e.obj]-1) {
+				return tt.Bool(true)
+			}
+			if cp < e.n {
+				return tt.Bool(false)
+			}
+			return tt.Bin(OpUle, count(e.obj, when), cst(e.obj, int(cp-e.n)))
+		case "(*sync.WaitGroup).Wait", "eg.Wait":
+			if _, ok := counters[e.obj]; !ok {
+				return tt.Bool(true)
+			}
+			return tt.Eq(count(e.obj, when), cst(e.obj, 0))
+		case "(*sync.Mutex).Lock", "(*sync.RWMutex).Lock":
+			return tt.Eq(count(e.obj, when), cst(e.obj, 0))
+		}
+		return tt.Bool(true)
+	}
+	// validity of the run prefix
+	valid := tt.Bool(true)
+	pred := func(b blk) (blk, bool) { // the block that must precede b
+		if b.j > 0 {
+			return blk{b.t, b.j - 1}, true
+		}
+		th := t.threads[b.t]
+		if th.parent >= 0 {
+			return blk{th.parent, th.spawnIdx}, true
+		}
+		return blk{}, false
+	}
+	for _, b := range blocks {
+		if p, ok := pred(b); ok {
+			valid = tt.And(valid, tt.Implies(x[b], tt.And(x[p], tt.Bin(OpUlt, tau[p], tau[b]))))
+		}
+		valid = tt.And(valid, tt.Implies(x[b], enabledAt(b, before(b))))
+	}
+	for a := 0; a < B; a++ {
+		for c := a + 1; c < B; c++ {
+			if blocks[a].t == blocks[c].t {
+				continue
+			}
+			valid = tt.And(valid, tt.Not(tt.And(tt.And(x[blocks[a]], x[blocks[c]]), tt.Eq(tau[blocks[a]], tau[blocks[c]]))))
+		}
+	}
+	oblige := func(c *Term, label string) {
+		i.stats.Checks++
+		if c.IsTrue() {
+			return
+		}
+		i.stats.CheckQueries++
+		v, m := i.solver.CheckOneShot(append(append([]Lit{}, i.pc...), Lit{c, true}), 600000)
+		switch v {
+		case Sat:
+			i.raise("check", label, "", m)
+		case Unknown:
+			i.raise("unknown", label, "solver answered unknown on obligation "+label, i.model)
+		}
+	}
+	i.noteAssume("schedule model: goroutine event sequences do not depend on the schedule (thread modularity); semaphore / wait group / errgroup / mutex follow their documented blocking contracts; waiter wake-up order is free")
+	i.pushPC(valid, false)
+
+	// M1: right after any block that starts a process, at most cpus processes are alive
+	if ds, ok := counters[procKey{}]; ok && cpus < (1<<uint(ctrW[procKey{}]))-1 {
+		m1 := tt.Bool(true)
+		for _, d := range ds {
+			if d.d > 0 {
+				m1 = tt.And(m1, tt.Implies(x[d.b], tt.Bin(OpUle, count(procKey{}, upto(d.b)), cst(procKey{}, cpus))))
+			}
+		}
+		oblige(m1, "more-tool-processes-at-once-than-cpus")
+	}
+	// M2: when the main goroutine returns the results every started goroutine has finished
+	m2 := tt.Bool(true)
+	for j, b0 := range t.threads[0].events {
+		isRet := false
+		for _, e := range b0.members() {
+			isRet = isRet || e.kind == "user:return"
+		}
+		if !isRet {
+			continue
+		}
+		r := blk{0, j}
+		for u := 1; u < T; u++ {
+			th := t.threads[u]
+			if len(th.events) == 0 {
+				continue
+			}
+			sp := blk{th.parent, th.spawnIdx}
+			last := blk{u, len(th.events) - 1}
+			startedBefore := tt.And(x[sp], tt.Bin(OpUlt, tau[sp], tau[r]))
+			if sp == r {
+				startedBefore = tt.Bool(false)
+			}
+			m2 = tt.And(m2, tt.Implies(tt.And(x[r], startedBefore), tt.And(x[last], tt.Bin(OpUlt, tau[last], tau[r]))))
+		}
+	}
+	oblige(m2, "results-returned-before-every-tool-goroutine-finished")
+	// M4: no deadlock: if something is left to do, some next block is enabled in the final state
+	notAll := tt.Bool(false)
+	stuck := tt.Bool(true)
+	for _, b := range blocks {
+		notAll = tt.Or(notAll, tt.Not(x[b]))
+		next := tt.Not(x[b])
+		if p, ok := pred(b); ok {
+			next = tt.And(next, x[p])
+		}
+		stuck = tt.And(stuck, tt.Implies(next, tt.Not(enabledAt(b, final))))
+	}
+	oblige(tt.Not(tt.And(notAll, stuck)), "deadlock")
+	// vacuity guard: a complete run exists
+	full := tt.Bool(true)
+	for _, b := range blocks {
+		full = tt.And(full, x[b])
+	}
 	v, _ := i.solver.CheckOneShot(append(append([]Lit{}, i.pc...), Lit{full, false}), 600000)
 	if v == Sat {
 		i.reach["complete-schedule-exists"]++
